@@ -136,6 +136,23 @@ fn run_set<S: PS>(ctx: &Ctx) -> Acc {
         let t1: Vec<Poly> = (0..p.k).map(|_| gen::ntt_sparse_poly(&mut g, 0, 1023)).collect();
         pk_roundtrip::<S>(&mut acc, "every-t1-polynomial-ntt-sparse", &r::pk_encode(&g.bytes(32), &t1));
     }
+    // public keys whose t1 polynomial drives the forward NTT's slot 0 to the largest / smallest value the
+    // implementation can reach with 10-bit inputs (found through the real ntt hook, layer by layer): the
+    // import-side precompute NTT(t1 * 2^d) sees its extreme operands here
+    {
+        let mut g = Prng::derive(ctx.seed, &format!("c09-nttmax-{}", p.name), 0);
+        for sign in [1i64, -1] {
+            let (poly, slot0) = ntt_slot0_maximiser(ctx.seed, 0, 1023, sign);
+            acc.maxi("max_forward_ntt_slot0_magnitude_for_t1_inputs", slot0.abs());
+            for k in [0usize, p.k - 1] {
+                let mut t1: Vec<Poly> = (0..p.k).map(|_| core::array::from_fn(|_| g.range(0, 1023))).collect();
+                t1[k] = poly;
+                pk_roundtrip::<S>(&mut acc, "t1-polynomial-maximising-an-ntt-slot", &r::pk_encode(&g.bytes(32), &t1));
+            }
+            let t1: Vec<Poly> = vec![poly; p.k];
+            pk_roundtrip::<S>(&mut acc, "t1-polynomial-maximising-an-ntt-slot", &r::pk_encode(&g.bytes(32), &t1));
+        }
+    }
     // single-coefficient extremes
     let slot_jobs = 256usize;
     let accs = par_map(slot_jobs, |c| {
